@@ -30,6 +30,9 @@ type Req struct {
 }
 
 type Case struct {
+	// FPI: the searcher looks at this many fractions per iteration and stops early when the page is
+	// certain (0: all at once, the production default is the CPU count)
+	FPI          int         `json:"fpi,omitempty"`
 	Docs         []model.Doc `json:"docs"`
 	Steps        []Step      `json:"steps"`
 	Concurrent   bool        `json:"concurrent,omitempty"`    // send consecutive non-rotating bulks concurrently
@@ -108,6 +111,7 @@ func genCase(t *rapid.T) Case {
 		}
 		c.Steps = append(c.Steps, st)
 	}
+	c.FPI = rapid.SampledFrom([]int{0, 0, 1, 2}).Draw(t, "fpi")
 	c.Concurrent = rapid.IntRange(0, 3).Draw(t, "concurrent") == 3
 	c.ReplayActive = rapid.IntRange(0, 2).Draw(t, "replayactive") == 2
 	var corpus model.Corpus
@@ -136,7 +140,7 @@ type fracModel struct {
 func runCase(c Case) (evid.Result, error) {
 	res := evid.Result{}
 	dir := evid.ScratchDir("c17")
-	st, err := harness.OpenStore(dir, harness.StoreOpts{})
+	st, err := harness.OpenStore(dir, harness.StoreOpts{FracsPerIter: c.FPI})
 	if err != nil {
 		return res, err
 	}
